@@ -1307,6 +1307,46 @@ func c14StatusBeforeBody(c *core.Ctx) {
 	if n == 0 {
 		c.Fail("httpgrpc:unary-body-wait", token.NoPos, "ANCHOR-MISSING: no blocking wait for the reply body next to the status decoder in the unary client call")
 	}
+	// the streaming client likewise: once the reply head is there, what ends the call before any frame is read is the
+	// status the reply carries — between the round trip and the status decoder the reply reader does not put a
+	// status of its own making into the stream's final status (a "this does not look like our protocol" verdict on
+	// the content type turns the server's 404/NotFound for an unknown method into Unavailable)
+	for _, fn := range p.LibFuncs("httpgrpc") {
+		if fn.Parent() != nil {
+			continue
+		}
+		var rt ssa.Instruction
+		core.Instrs(fn, func(in ssa.Instruction) {
+			if isRequestIssue(in) {
+				rt = in
+			}
+		})
+		if rt == nil || core.RecvName(fn) == "" || fn.Name() == "Invoke" {
+			continue
+		}
+		var dec *ssa.Call
+		for _, call := range core.CallsIn(fn, func(call *ssa.Call, ci core.CallInfo) bool {
+			return ci.Static != nil && core.PkgIs(ci.Static, "httpgrpc") && len(ci.Static.Params) == 1 && core.TypeStr(ci.Static.Params[0].Type()) == "*net/http.Response" && strings.HasSuffix(core.TypeStr(call.Type()), "status.Status")
+		}) {
+			dec = call
+		}
+		if dec == nil {
+			continue
+		}
+		reach := core.Walk(core.After(rt), func(x ssa.Instruction) bool { return x == ssa.Instruction(dec) }, nil)
+		bad := token.NoPos
+		for in := range reach {
+			st, ok := in.(*ssa.Store)
+			if !ok {
+				continue
+			}
+			if base, fld, isF := core.FieldOf(st.Addr); isF && fld == "Code" || isF && strings.HasSuffix(fld, ".Code") {
+				_ = base
+				bad = st.Pos()
+			}
+		}
+		c.Check(bad == token.NoPos, core.FuncName(fn)+":no-own-verdict-before-the-status-header", dec.Pos(), "the stream's final status is not written between the round trip and the status decoder", "after the reply head arrived the reply reader writes a final status of its own making before the reply's status is looked at: the caller gets that code instead of the one the server sent (NotFound for an unknown method becomes whatever the reader decided)")
+	}
 }
 
 // errorMaker: a module function whose every return is an error it constructs
